@@ -2,13 +2,14 @@ SPECIFICATION C17Spec
 CONSTANTS
   Minerals = {a, b, c}
   Files = {f1}
-  Postfixes = {"p", "q", "r"}
+  Postfixes = {"1", "10", "q"}
   Configs <- C17Configs
   Seeds = {1}
   Textures = {"random"}
   Flows = {"ss_xz"}
   Pars <- C17Pars
   Callbacks = {}
+  FixedSavers = TRUE
   MaxUpd = 2
   MaxOps = 7
 VIEW View
